@@ -37,19 +37,17 @@ def parseDef (fs : List String) : Option (Cls × CommandDef) :=
                  signatureData := sig })
   | _ => none
 
-/-- attributes of the other tools that the model knows are NOT hashed: accepted on a line and ignored -/
+/-- attributes that the model knows are NOT hashed: accepted on a line and ignored -/
 def unhashedKeys : List String :=
-  ["deps", "compiler-style", "link-output-path", "working-directory", "num-threads",
-   "enable-whole-module-optimization", "repair-via-ownership-analysis", "control-enabled", "expectedOutputs", "roots",
+  ["link-output-path", "repair-via-ownership-analysis", "expectedOutputs", "roots",
    "typeattr", "is-mutated", "is-command-timestamp"]
 
-/-- one `key=value` field of a non-shell line; `sharedLib` says that `executable` / `other-args` belong to
-SharedLibraryShellCommand (whose recipe does not hash them) rather than to SwiftCompilerShellCommand -/
-def applyKV (sharedLib : Bool) (d : CommandDef) (kv : String) : Option CommandDef :=
+/-- one `key=value` field (attribute name = value); each attribute is stored in the member its
+`configureAttribute` assigns (`deps` here is ClangShellCommand's single path; `working-directory` must be absolute) -/
+def applyKV (d : CommandDef) (kv : String) : Option CommandDef :=
   match kv.splitOn "=" with
   | [k, v] =>
-    if sharedLib && (k == "executable" || k == "other-args") then some d
-    else if k == "args" then (hexListDecode v).map fun l => { d with args := l }
+    if k == "args" then (hexListDecode v).map fun l => { d with args := l }
     else if k == "executable" then (Hex.decode v).map fun b => { d with executable := b }
     else if k == "module-name" then (Hex.decode v).map fun b => { d with moduleName := b }
     else if k == "module-aliases" then (hexListDecode v).map fun l => { d with moduleAliases := l }
@@ -60,6 +58,12 @@ def applyKV (sharedLib : Bool) (d : CommandDef) (kv : String) : Option CommandDe
     else if k == "temps-path" then (Hex.decode v).map fun b => { d with tempsPath := b }
     else if k == "other-args" then (hexListDecode v).map fun l => { d with otherArgs := l }
     else if k == "is-library" then (flag v).map fun b => { d with isLibrary := b }
+    else if k == "enable-whole-module-optimization" then (flag v).map fun b => { d with enableWholeModuleOptimization := b }
+    else if k == "num-threads" then (Hex.decode v).map fun b => { d with numThreads := b }
+    else if k == "working-directory" then (Hex.decode v).map fun b => { d with workingDirectory := b }
+    else if k == "control-enabled" then (flag v).map fun b => { d with controlEnabled := b }
+    else if k == "deps" then (Hex.decode v).map fun b => { d with depsPath := b }
+    else if k == "compiler-style" then (Hex.decode v).map fun b => { d with compilerStyle := b }
     else if k == "contents" then (Hex.decode v).map fun b => { d with contents := b }
     else if k == "type" then v.toNat?.map fun n => { d with type := n }
     else if k == "producers" then (hexListDecode v).map fun l => { d with producers := l }
@@ -87,23 +91,31 @@ def parseOther (fs : List String) : Option (Cls × CommandDef) :=
       { name := name, inputs := ins, outputs := outs, allowMissingInputs := ami, allowModifiedOutputs := amo,
         alwaysOutOfDate := aood, args := [], env := [], depsPaths := [], depsStyle := 0, inheritEnv := true,
         canSafelyInterrupt := true, signatureData := [],
-        executable := "swiftc".toUTF8.toList }      -- the member's default initialiser in SwiftCompilerShellCommand
-    let d ← kvs.foldlM (applyKV (tool == "shared-library")) d0
+        -- the member's default initialiser: "swiftc" in SwiftCompilerShellCommand, "" in SharedLibraryShellCommand
+        executable := if tool == "swift-compiler" then "swiftc".toUTF8.toList else [] }
+    let d ← kvs.foldlM applyKV d0
     some (cls, d)
   | _ => none
 
-/-- a `key=value` field whose key is an attribute the recipes do not hash -/
-def isUnhashedKV (kv : String) : Bool :=
+/-- the optional attributes after the 15 positional fields of a shell / phony line -/
+def tailKeys : List String := ["working-directory", "control-enabled", "repair-via-ownership-analysis"]
+
+def isTailKV (kv : String) : Bool :=
   match kv.splitOn "=" with
-  | [k, _] => unhashedKeys.contains k
+  | [k, _] => tailKeys.contains k
   | _ => false
 
 def parseLine (fs : List String) : Option (Cls × CommandDef) :=
   match fs with
   | tool :: _ =>
     if tool == "shell" || tool == "phony" then
-      -- 15 positional fields, then optionally attributes that are not hashed (working-directory, control-enabled, …)
-      if (fs.drop 15).all isUnhashedKV then parseDef (fs.take 15) else none
+      -- 15 positional fields, then optionally working-directory=<hex, absolute> control-enabled=0|1 (hashed by the
+      -- built-in strategy of ShellCommand) and repair-via-ownership-analysis=0|1 (not hashed)
+      if (fs.drop 15).all isTailKV then do
+        let (c, d) ← parseDef (fs.take 15)
+        let d ← (fs.drop 15).foldlM applyKV d
+        some (c, d)
+      else none
     else parseOther fs
   | [] => none
 
